@@ -1,5 +1,5 @@
 """Generic defect patterns decided on the files a property is anchored in (properties.jsonl: anchors.files), before the
-property-specific rules run: R31 SHARED-CLASS-STATE, R32 LATE-BINDING, R33 GROUPBY-RUNS, R34 RUN-IDEMPOTENCE.  They are not tied to one statement of
+property-specific rules run: R31 SHARED-CLASS-STATE, R32 LATE-BINDING, R33 GROUPBY-RUNS, R34 RUN-IDEMPOTENCE, R35 STATEFUL-DEFAULTS.  They are not tied to one statement of
 the library: each names a construct whose meaning differs from what it looks like (one dict for all instances; a closure that sees
 the last iteration; groups that are only runs), and each is a necessary condition of every property whose code it sits in."""
 import json
@@ -40,6 +40,8 @@ def run_generic(ctx, prop):
     if prop != 'C07':       # C07 applies R34 to the whole library
         n34 = independence.r34_run_idempotence(ctx, include=lambda c: in_scope(c.module.relpath))
         n34 += independence.r34_closure_state(ctx, include=lambda f: in_scope(f.module.relpath))
-    ctx.run.note('generic patterns on the anchored files: %d class-level containers (R31), %d functions creating closures in loops '
+    n35 = independence.r35_stateful_defaults(ctx, include=lambda m: in_scope(m.relpath))
+    ctx.run.note('generic patterns on the anchored files: %d modules checked for default-argument objects their function changes (R35); ' % n35 +
+                 ' %d class-level containers (R31), %d functions creating closures in loops '
                  '(R32), %d itertools.groupby sites (R33), %d step classes / step factories checked for state a run leaves to the '
                  'next (R34)' % (n31, n32, n33, n34))
